@@ -21,6 +21,9 @@ _REV = {v: k for k, v in _COL.items()}
 
 def model_check(ctx):
     ctx.mc("MC_TrafficLight", "MC_TrafficLight4.cfg" if ctx.thorough else "MC_TrafficLight.cfg", coverage=True)
+    if ctx.thorough:      # unbounded histories: inductive invariant of spec/APA_TrafficLight.tla checked by Apalache (crv/apalache.py)
+        from crv import apalache
+        apalache.append_run(ctx, "APA_TrafficLight")
 
 
 def cases(ctx):
